@@ -801,6 +801,92 @@ def tie_nft(case):
     return t
 
 # ---------------------------------------------------------------------------------------------
+# multiplex_for_tensor_fields: Model/Multiplex.lean (multiplexTensor ∘ nft…)  <->  NaiveFourierTransform / MatrixFourierTransform on tensor fields of any shape
+
+def gen_mux(rng):
+    ndim = int(rng.integers(1, 3))
+    n, m = int(rng.integers(1, 6)), int(rng.integers(1, 6))
+    order = int(rng.integers(1, 4))
+    while True:
+        ts = [int(rng.integers(1, 4)) for _ in range(order)]
+        if int(np.prod(ts)) <= 12:
+            break
+    T = int(np.prod(ts))
+    return {'family': 'tie-mux', 'x': [[dy(rng, -2, 2) for _ in range(n)] for _ in range(ndim)], 'u': [[dy(rng, -3, 3) for _ in range(m)] for _ in range(ndim)],
+            'w_in': [dy_nz(rng, 0.125, 2.0, 3) for _ in range(n)], 'w_out': [dy_nz(rng, 0.125, 2.0, 3) for _ in range(m)], 'tensor': ts,
+            't': int(rng.integers(0, T)), 'j': int(rng.integers(0, n)), 'k': int(rng.integers(0, m)), 'seed': int(rng.integers(0, 2 ** 31))}
+
+
+def tie_mux(case):
+    import hcipy
+    t = Tie()
+    ndim = len(case['x'])
+    n, m = len(case['x'][0]), len(case['u'][0])
+    ts = [int(v) for v in case['tensor']]
+    T = int(np.prod(ts))
+    gi = hcipy.CartesianGrid(hcipy.UnstructuredCoords([np.array(c, dtype='float64') for c in case['x']]), weights=np.array(case['w_in'], dtype='float64'))
+    go = hcipy.CartesianGrid(hcipy.UnstructuredCoords([np.array(c, dtype='float64') for c in case['u']]), weights=np.array(case['w_out'], dtype='float64'))
+    xs = [np.array(c, dtype=LD) for c in case['x']]
+    us = [np.array(c, dtype=LD) for c in case['u']]
+    dot = sum(np.multiply.outer(us[d], xs[d]) for d in range(ndim))      # (m, n)
+    Af = np.exp(-CLD(1j) * dot) * np.array(case['w_in'], dtype=LD)[None, :]                                 # (m, n): the forward sum
+    Ab = (np.exp(CLD(1j) * dot) * np.array(case['w_out'], dtype=LD)[:, None]).T / (TWO_PI_LD ** ndim)      # (n, m): the backward sum
+    rng = np.random.default_rng(case['seed'])
+    tt, j, k = case['t'], case['j'], case['k']
+    impl = [('nft-mat', lambda: hcipy.NaiveFourierTransform(gi, go, precompute_matrices=True)), ('nft-fly', lambda: hcipy.NaiveFourierTransform(gi, go, precompute_matrices=False))]
+    if ndim == 1:
+        gis = hcipy.CartesianGrid(hcipy.SeparatedCoords([np.array(case['x'][0], dtype='float64')]), weights=np.array(case['w_in'], dtype='float64'))
+        gos = hcipy.CartesianGrid(hcipy.SeparatedCoords([np.array(case['u'][0], dtype='float64')]), weights=np.array(case['w_out'], dtype='float64'))
+        impl.append(('mft', lambda: hcipy.MatrixFourierTransform(gis, gos)))
+    res = {}
+    for name, mk in impl:
+        ft = mk()
+        gin, gout = ft.input_grid, ft.output_grid
+        # (a) a random tensor field: every component of the result is the defining sum of the same component of the input, in the C-order layout
+        X = (rng.integers(-8, 9, size=(T, n)) + 1j * rng.integers(-8, 9, size=(T, n))) / 4.0
+        Y = (rng.integers(-8, 9, size=(T, m)) + 1j * rng.integers(-8, 9, size=(T, m))) / 4.0
+        for direction, src, A, gsrc, nout in (('forward', X, Af, gin, m), ('backward', Y, Ab, gout, n)):
+            fld = hcipy.Field(src.reshape(tuple(ts) + (-1,)).copy(), gsrc)
+            got = np.asarray(getattr(ft, direction)(fld))
+            if got.shape != tuple(ts) + (nout,):
+                t.bad.append(('tie-mux-shape', '%s.%s of a field of tensor shape %s returned shape %s, expected %s' % (name, direction, ts, got.shape, tuple(ts) + (nout,))))
+                return t
+            ref = (A @ src.astype(CLD).T).T
+            e = maxerr(got.reshape(T, nout), ref)
+            if not e <= 1e-9 * max(float(np.abs(ref).max()), 1e-300):
+                t.bad.append(('tie-mux-' + direction, '%s.%s of a field of tensor shape %s differs from the defining sum taken component by component by %.3g' % (name, direction, ts, e)))
+        # (b) impulse in one component, for the model
+        if name.startswith('nft'):
+            a = np.zeros((T, n), dtype='complex128'); a[tt, j] = 1
+            b = np.zeros((T, m), dtype='complex128'); b[tt, k] = 1
+            res[('fwd', name[4:])] = np.asarray(ft.forward(hcipy.Field(a.reshape(tuple(ts) + (-1,)), gin))).reshape(-1)
+            res[('bwd', name[4:])] = np.asarray(ft.backward(hcipy.Field(b.reshape(tuple(ts) + (-1,)), gout))).reshape(-1)
+    lists = lambda ll: ';'.join(rat_list(l) for l in ll)
+    order = []
+    for direction, w, idx in (('fwd', case['w_in'], j), ('bwd', case['w_out'], k)):
+        for path in ('mat', 'fly'):
+            t.lines.append('C01 mux %s %s %s %s %s [%s] %d %d' % (direction, path, lists(case['x']), lists(case['u']), rat_list(w), ','.join(str(v) for v in ts), tt, idx))
+            order.append((direction, path))
+
+    def check(rs):
+        for key, r in zip(order, rs):
+            if not r.startswith('ok '):
+                return 'model mux %s: %s' % (key, r)
+            mval = eval_psums(r)
+            if key[0] == 'bwd':
+                mval = mval / (TWO_PI_LD ** ndim)
+            if mval.shape != res[key].shape:
+                return 'NaiveFourierTransform.%s of a field of tensor shape %s has %d raveled samples, the model %d' % (key[0], ts, res[key].size, mval.size)
+            e = maxerr(mval, res[key])
+            if not e <= 1e-9 * max(float(np.abs(mval).max()), 1e-300):
+                return 'NaiveFourierTransform.%s (%s path, tensor shape %s, impulse in component %d) differs from the model multiplexTensor by %.3g' % (key[0], key[1], ts, tt, e)
+        return None
+    t.check = check
+    t.counts = ['tie-mux:order=%d' % len(ts), 'tie-mux:components=%d' % T, 'tie-mux:%dD' % ndim] + (['tie-mux:mft'] if ndim == 1 else [])
+    t.sig = ('tie-mux', tuple(ts), ndim, n, m)
+    return t
+
+# ---------------------------------------------------------------------------------------------
 # get_fft_parameters ∘ FastFourierTransform: getFftParameters + plan (AxisReproduced, FftValuePre)  <->  the grid the re-built FFT reports
 
 def gen_roundtrip(rng):
@@ -1012,9 +1098,11 @@ def tie_select(case):
 
 GEN = {'tie-mft': (gen_mft, tie_mft), 'tie-czt': (gen_czt, tie_czt), 'tie-zoom': (gen_zoom, tie_zoom), 'tie-zoomaxes': (gen_zoomaxes, tie_zoomaxes),
        'tie-state': (gen_state, tie_state), 'tie-lit': (gen_lit, tie_lit), 'tie-select': (gen_select, tie_select),
-       'tie-roundtrip': (gen_roundtrip, tie_roundtrip), 'tie-fftw': (gen_fftw, tie_fftw), 'tie-nft': (gen_nft, tie_nft)}
+       'tie-roundtrip': (gen_roundtrip, tie_roundtrip), 'tie-fftw': (gen_fftw, tie_fftw), 'tie-nft': (gen_nft, tie_nft), 'tie-mux': (gen_mux, tie_mux)}
 
 DIRECTED = [
+    {'family': 'tie-mux', 'x': [[-0.5, 0.25, 1.0]], 'u': [[-1.0, 0.5]], 'w_in': [0.5, 0.25, 1.0], 'w_out': [1.0, 0.5], 'tensor': [2, 1, 3], 't': 5, 'j': 1, 'k': 0, 'seed': 1},
+    {'family': 'tie-mux', 'x': [[-0.5, 0.25], [0.0, 1.5]], 'u': [[-1.0, 0.5, 2.0], [0.25, 0.0, -0.75]], 'w_in': [0.5, 0.25], 'w_out': [1.0, 0.5, 0.125], 'tensor': [3], 't': 2, 'j': 0, 'k': 2, 'seed': 2},
     {'family': 'tie-zoomaxes', 'r': 1, 'ndim': 2, 'dir': 'fwd', 'seed': 1},        # D5: tensor field on a 2-D grid
     {'family': 'tie-zoomaxes', 'r': 0, 'ndim': 3, 'dir': 'fwd', 'seed': 2},        # D5: 3-D grid
     {'family': 'tie-zoomaxes', 'r': 2, 'ndim': 4, 'dir': 'bwd', 'seed': 3},
